@@ -50,9 +50,7 @@ static ATT_BAD: AtomicBool = AtomicBool::new(false); // an attempt number outsid
 static USED_K2: AtomicBool = AtomicBool::new(false);
 static USED_K2K3: AtomicBool = AtomicBool::new(false);
 static CERT_VALID: AtomicBool = AtomicBool::new(false); // the last thing that happened is a passing postcondition check
-static ENTRY1: AtomicU64 = AtomicU64::new(0);
-static ENTRY2: AtomicU64 = AtomicU64::new(0);
-static ENTRY3: AtomicU64 = AtomicU64::new(0);
+static DIRTY_START: AtomicBool = AtomicBool::new(false); // an attempt started from a state an earlier attempt produced
 
 /// CONTRACT of one repair attempt: may perform any flips (havoc the state tag), then returns
 /// Ok(stats), Err(NonConvergent) or any other Err.
@@ -64,11 +62,15 @@ fn attempt_contract<K, U, V, const D: usize>(
 where K: Kernel<D>, U: DataType, V: DataType {
     if k2 { USED_K2.store(true, AOrd::Relaxed); } else { USED_K2K3.store(true, AOrd::Relaxed); }
     CERT_VALID.store(false, AOrd::Relaxed);
-    // write-only: remember the state each attempt started from (compared by the harness)
+    // write-only, constant stores only: an attempt that starts from a state some earlier attempt
+    // produced (tag >= 2^32) instead of the restored pre-repair state (tag < 2^32) is "dirty"
+    if tag(tds) >= (1usize << 32) {
+        DIRTY_START.store(true, AOrd::Relaxed);
+    }
     match config.attempt {
-        1 => { ENTRY1.store(tag(tds) as u64, AOrd::Relaxed); ATT1.store(true, AOrd::Relaxed) }
-        2 => { ENTRY2.store(tag(tds) as u64, AOrd::Relaxed); ATT2.store(true, AOrd::Relaxed) }
-        3 => { ENTRY3.store(tag(tds) as u64, AOrd::Relaxed); ATT3.store(true, AOrd::Relaxed) }
+        1 => ATT1.store(true, AOrd::Relaxed),
+        2 => ATT2.store(true, AOrd::Relaxed),
+        3 => ATT3.store(true, AOrd::Relaxed),
         _ => ATT_BAD.store(true, AOrd::Relaxed),
     }
     // "any flips happened": the attempt leaves SOME state of its own making.  Attempt states
@@ -128,6 +130,7 @@ macro_rules! repair_protocol_instance {
             ATT2.store(false, AOrd::Relaxed);
             ATT3.store(false, AOrd::Relaxed);
             ATT_BAD.store(false, AOrd::Relaxed);
+            DIRTY_START.store(false, AOrd::Relaxed);
             USED_K2.store(false, AOrd::Relaxed);
             USED_K2K3.store(false, AOrd::Relaxed);
             CERT_VALID.store(false, AOrd::Relaxed);
@@ -140,9 +143,7 @@ macro_rules! repair_protocol_instance {
             } else {
                 assert!(a1, "OBL three-attempts: at least one and at most three attempts (numbered 1..=3)");
                 assert!(!ATT_BAD.load(AOrd::Relaxed) && (!a3 || a2) && (!a2 || a1), "OBL attempt-order: attempts are configured 1, 2, 3 in order");
-                let t0 = tag0 as u64;
-                assert!(ENTRY1.load(AOrd::Relaxed) == t0 && (!a2 || ENTRY2.load(AOrd::Relaxed) == t0) && (!a3 || ENTRY3.load(AOrd::Relaxed) == t0),
-                    "OBL clean-start: every attempt starts from the pre-repair state (snapshot restored before a retry)");
+                assert!(!DIRTY_START.load(AOrd::Relaxed), "OBL clean-start: every attempt starts from the pre-repair state (snapshot restored before a retry)");
                 let (uses, other) = if D == 2 { (&USED_K2, &USED_K2K3) } else { (&USED_K2K3, &USED_K2) };
                 assert!(uses.load(AOrd::Relaxed) && !other.load(AOrd::Relaxed), "OBL engine-by-dim: D == 2 uses the k=2 engine, D >= 3 the k=2/k=3 engine");
                 match &r {
